@@ -94,6 +94,22 @@ func (s *Symbolizer) frameOf(c *Ctx) *frame {
 					fr.free = append(fr.free, s.sym(pf, b))
 				}
 			}
+			// the closure comes out of a factory call: its free variables are bound inside the factory, whose
+			// parameters are the arguments of that call
+			if fn, mk := FactoryClosure(a); fn == c.Fn && mk != nil {
+				fcall := a.(*ssa.Call)
+				ff := &frame{fn: fcall.Call.StaticCallee(), parent: pf}
+				for i := range ff.fn.Params {
+					if i < len(fcall.Call.Args) {
+						ff.args = append(ff.args, s.sym(pf, fcall.Call.Args[i]))
+					} else {
+						ff.args = append(ff.args, nil)
+					}
+				}
+				for _, b := range mk.Bindings {
+					fr.free = append(fr.free, s.sym(ff, b))
+				}
+			}
 		}
 		fr.parent = pf
 	}
